@@ -41,6 +41,10 @@
 #include <xercesc/util/TransService.hpp>
 #include <xercesc/util/RefArrayVectorOf.hpp>
 #include <xercesc/util/XMLMsgLoader.hpp>
+#include <xercesc/framework/LocalFileInputSource.hpp>
+#include <xercesc/framework/Wrapper4DOMLSInput.hpp>
+#include <xercesc/framework/Wrapper4InputSource.hpp>
+#include <xercesc/parsers/DOMLSParserImpl.hpp>
 #include <xercesc/util/PanicHandler.hpp>
 #include <map>
 #include <unordered_map>
@@ -150,8 +154,9 @@ struct Ctl {
     long errors, fatals, warnings;
     uint64_t digest;
     std::map<std::string, std::string>* ext;
+    std::map<std::string, std::string>* extenc;
     MemoryManager* mm;
-    Ctl() : count(0), throwAt(0), excKind(0), errors(0), fatals(0), warnings(0), digest(1469598103934665603ULL), ext(0), mm(0) {}
+    Ctl() : extenc(0), count(0), throwAt(0), excKind(0), errors(0), fatals(0), warnings(0), digest(1469598103934665603ULL), ext(0), mm(0) {}
     void mix(const char* tag, const XMLCh* s) {
         for (const char* p = tag; *p; ++p) { digest ^= (unsigned char)*p; digest *= 1099511628211ULL; }
         if (s) for (; *s; ++s) { digest ^= (uint64_t)*s; digest *= 1099511628211ULL; }
@@ -178,7 +183,12 @@ struct Ctl {
         std::map<std::string, std::string>::iterator it = ext->find(key);
         if (it == ext->end()) return 0;
         // the source is handed over to the parser, which deletes it
-        return new (mm) MemBufInputSource((const XMLByte*)it->second.data(), it->second.size(), sysId, false, mm);
+        MemBufInputSource* src = new (mm) MemBufInputSource((const XMLByte*)it->second.data(), it->second.size(), sysId, false, mm);
+        if (extenc) {
+            std::map<std::string, std::string>::iterator e = extenc->find(key);
+            if (e != extenc->end()) { XMLCh* w = XMLString::transcode(e->second.c_str(), mm); src->setEncoding(w); XMLString::release(&w, mm); }
+        }
+        return src;
     }
 };
 
@@ -286,6 +296,11 @@ struct Cfg {
     int ns, val, sch, fc, pool, excKind, filter, ents;
     std::string doc;
     std::map<std::string, std::string> ext;
+    // InputSource variations: src = mem | memadopt | file | missing | w4dom | w4str  (LS parser: mem | w4is | lsstr | lsuri)
+    std::string src, enc, pub, sys, tmp;
+    std::map<std::string, std::string> extenc;   // forced encoding on the source the resolver returns for that entity
+    int preload;                                    // load the .xsd resources as cached grammars before parsing
+    Cfg() : ns(1), val(0), sch(0), fc(0), pool(0), excKind(0), filter(0), ents(1), preload(0) {}
 };
 
 static const XMLCh* scannerName(const std::string& s) {
@@ -307,7 +322,7 @@ struct AnyParser {
     DOMLSParser* ls; HLS* hls;
     XMLPScanToken token;
     AnyParser(Cfg& c, LedgerMM* m, XMLGrammarPool* g) : cfg(c), mm(m), gp(g), sax(0), h1(0), sax2(0), h2(0), dom(0), ls(0), hls(0) {
-        ctl.ext = &cfg.ext; ctl.mm = mm; ctl.excKind = cfg.excKind;
+        ctl.ext = &cfg.ext; ctl.extenc = &cfg.extenc; ctl.mm = mm; ctl.excKind = cfg.excKind;
         if (cfg.api == "sax") {
             sax = new (mm) SAXParser(0, mm, gp);
             h1 = new H1(&ctl);
@@ -357,6 +372,17 @@ struct AnyParser {
             if (gp) { dc->setParameter(XMLUni::fgXercesCacheGrammarFromParse, true); dc->setParameter(XMLUni::fgXercesUseCachedGrammarInParse, true); }
             if (cfg.filter) ls->setFilter(hls);
         }
+        if (cfg.preload && !ls) {
+            for (std::map<std::string, std::string>::iterator it = cfg.ext.begin(); it != cfg.ext.end(); ++it) {
+                if (!(it->first.size() > 4 && it->first.substr(it->first.size() - 4) == ".xsd")) continue;
+                MemBufInputSource src((const XMLByte*)it->second.data(), it->second.size(), it->first.c_str(), false, mm);
+                try {
+                    if (sax) { sax->loadGrammar(src, Grammar::SchemaGrammarType, true); sax->useCachedGrammarInParse(true); }
+                    else if (sax2) { sax2->loadGrammar(src, Grammar::SchemaGrammarType, true); sax2->setFeature(XMLUni::fgXercesUseCachedGrammarInParse, true); }
+                    else { dom->loadGrammar(src, Grammar::SchemaGrammarType, true); dom->useCachedGrammarInParse(true); }
+                } catch (...) { }
+            }
+        }
     }
     void destroy() {
         if (sax) { delete sax; sax = 0; }
@@ -364,23 +390,96 @@ struct AnyParser {
         if (dom) { delete dom; dom = 0; }
         if (ls) { ls->release(); ls = 0; }
         delete h1; h1 = 0; delete h2; h2 = 0; delete hls; hls = 0;
+        freeKept();
     }
     ~AnyParser() { destroy(); }
     void arm(long throwAt) { ctl.count = 0; ctl.throwAt = throwAt; ctl.errors = ctl.fatals = ctl.warnings = 0; ctl.digest = 1469598103934665603ULL; }
+    // full parse; returns canonical outcome
+    // ---- InputSource variations ---------------------------------------------------------------------------
+    void writeTmp(const std::string& doc) {
+        if (cfg.tmp.empty()) return;
+        FILE* f = fopen(cfg.tmp.c_str(), "wb");
+        if (f) { fwrite(doc.data(), 1, doc.size(), f); fclose(f); }
+    }
+    void decorate(InputSource* src) {
+        if (!cfg.enc.empty()) { XMLCh* w = XMLString::transcode(cfg.enc.c_str(), mm); src->setEncoding(w); XMLString::release(&w, mm); }
+        if (!cfg.pub.empty()) { XMLCh* w = XMLString::transcode(cfg.pub.c_str(), mm); src->setPublicId(w); XMLString::release(&w, mm); }
+    }
+    std::vector<XMLCh*> kept;      // string data handed to a DOMLSInput; released at the next source creation / parser destruction
+    void freeKept() { for (size_t i = 0; i < kept.size(); i++) XMLString::release(&kept[i], mm); kept.clear(); }
+    DOMLSInput* makeLSInputOver(const std::string& doc, const std::string& kind, InputSource*& keep) {
+        keep = 0;
+        freeKept();
+        static const XMLCh lsFeat[] = { 'L', 'S', 0 };
+        DOMImplementationLS* impl = (DOMImplementationLS*)DOMImplementationRegistry::getDOMImplementation(lsFeat);
+        const char* sysid = cfg.sys.empty() ? "doc.xml" : cfg.sys.c_str();
+        if (kind == "w4is") {
+            MemBufInputSource* m = new (mm) MemBufInputSource((const XMLByte*)doc.data(), doc.size(), sysid, false, mm);
+            decorate(m);
+            return new Wrapper4InputSource(m, true, mm);     // DOMLSInput is not an XMemory class: plain new
+        }
+        DOMLSInput* in = impl->createLSInput(mm);
+        if (kind == "lsstr" || kind == "w4str") {
+            XMLCh* w = XMLString::transcode(doc.c_str(), mm);     // (documents with NUL bytes are cut; fine for this purpose)
+            in->setStringData(w);                                 // NOT copied by DOMLSInputImpl: must outlive the parse
+            kept.push_back(w);
+            XMLCh* sw = XMLString::transcode(sysid, mm); in->setSystemId(sw); XMLString::release(&sw, mm);
+        } else if (kind == "lsuri") {
+            writeTmp(doc);
+            XMLCh* sw = XMLString::transcode(cfg.tmp.c_str(), mm); in->setSystemId(sw); XMLString::release(&sw, mm);
+        } else {
+            MemBufInputSource* m = new (mm) MemBufInputSource((const XMLByte*)doc.data(), doc.size(), sysid, false, mm);
+            in->setByteStream(m);
+            keep = m;
+        }
+        if (!cfg.enc.empty()) { XMLCh* w = XMLString::transcode(cfg.enc.c_str(), mm); in->setEncoding(w); XMLString::release(&w, mm); }
+        if (!cfg.pub.empty()) { XMLCh* w = XMLString::transcode(cfg.pub.c_str(), mm); in->setPublicId(w); XMLString::release(&w, mm); }
+        return in;
+    }
+    // heap-allocated source for the SAX / DOM parsers; the caller deletes it (keep = inner object to delete afterwards)
+    InputSource* makeSource(const std::string& doc, InputSource*& keep) {
+        keep = 0;
+        const std::string& k = cfg.src;
+        const char* sysid = cfg.sys.empty() ? "doc.xml" : cfg.sys.c_str();
+        InputSource* src = 0;
+        if (k == "memadopt") {
+            XMLByte* copy = new XMLByte[doc.size() + 1];      // MemBufInputSource releases an adopted buffer with delete []
+            memcpy(copy, doc.data(), doc.size());
+            src = new (mm) MemBufInputSource(copy, doc.size(), sysid, true, mm);
+        } else if (k == "file" || k == "missing") {
+            if (k == "file") writeTmp(doc);
+            std::string path = k == "file" ? cfg.tmp : cfg.tmp + ".does-not-exist";
+            XMLCh* w = XMLString::transcode(path.c_str(), mm);
+            try { src = new (mm) LocalFileInputSource(w, mm); } catch (...) { XMLString::release(&w, mm); throw; }
+            XMLString::release(&w, mm);
+        } else if (k == "w4dom" || k == "w4str") {
+            DOMLSInput* in = makeLSInputOver(doc, k == "w4str" ? "w4str" : "bytes", keep);
+            return new (mm) Wrapper4DOMLSInput(in, 0, true, mm);     // adopts the DOMLSInput; decorations were put on it
+        } else {
+            src = new (mm) MemBufInputSource((const XMLByte*)doc.data(), doc.size(), sysid, false, mm);
+        }
+        decorate(src);
+        return src;
+    }
     // full parse; returns canonical outcome
     std::string parse(const std::string& doc) {
         std::string r;
         try {
             if (ls) {
-                DOMLSInput* in = ((DOMImplementationLS*)DOMImplementationRegistry::getDOMImplementation(XMLUni::fgZeroLenString))->createLSInput();
-                // createLSInput takes the global manager only; feed the bytes through a byte stream
-                MemBufInputSource* src = new (mm) MemBufInputSource((const XMLByte*)doc.data(), doc.size(), "doc.xml", false, mm);
-                in->setByteStream(src);
-                try { ls->parse(in); } catch (...) { in->release(); delete src; throw; }
-                in->release(); delete src;
+                InputSource* keep = 0;
+                DOMLSInput* in = makeLSInputOver(doc, cfg.src.empty() ? "bytes" : cfg.src, keep);
+                try {
+                    if (cfg.src == "lsuri") { XMLCh* w = XMLString::transcode(cfg.tmp.c_str(), mm); ArrayJanitor<XMLCh> j(w, mm); ls->parseURI(w); }
+                    else ls->parse(in);
+                } catch (...) { in->release(); delete keep; throw; }
+                in->release(); delete keep;
             } else {
-                MemBufInputSource src((const XMLByte*)doc.data(), doc.size(), "doc.xml", false, mm);
-                if (sax) sax->parse(src); else if (sax2) sax2->parse(src); else dom->parse(src);
+                InputSource* keep = 0;
+                InputSource* src = makeSource(doc, keep);
+                try {
+                    if (sax) sax->parse(*src); else if (sax2) sax2->parse(*src); else dom->parse(*src);
+                } catch (...) { delete src; delete keep; throw; }
+                delete src; delete keep;
             }
             r = ctl.fatals ? "fatal" : (ctl.errors ? "invalid" : "ok");
         } catch (const OutOfMemoryException&) { r = "exc:OutOfMemory";
@@ -395,7 +494,7 @@ struct AnyParser {
         return r;
     }
     bool canProgressive() const { return !ls; }
-    bool first(MemBufInputSource& src) {
+    bool first(const InputSource& src) {
         if (sax) return sax->parseFirst(src, token);
         if (sax2) return sax2->parseFirst(src, token);
         return dom->parseFirst(src, token);
@@ -434,8 +533,10 @@ static std::string runProgressive(AnyParser& p, const std::string& doc, long j, 
     std::string r;
     steps = 0;
     try {
-        MemBufInputSource src((const XMLByte*)doc.data(), doc.size(), "doc.xml", false, p.mm);
-        bool more = p.first(src);
+        InputSource* keep = 0;
+        InputSource* srcp = p.makeSource(doc, keep);
+        Janitor<InputSource> j1(srcp), j2(keep);
+        bool more = p.first(*srcp);
         if (!more) r = "first-failed";
         else {
             while (more && (j < 0 || steps < j)) { more = p.next(); steps++; }
@@ -457,6 +558,20 @@ static Cfg readCfg(const KV& kv) {
     c.ns = geti(kv, "ns", 1); c.val = geti(kv, "val", 0); c.sch = geti(kv, "sch", 0); c.fc = geti(kv, "fc", 0);
     c.pool = geti(kv, "pool", 0); c.excKind = geti(kv, "exc", 0); c.filter = geti(kv, "filter", 0); c.ents = geti(kv, "ents", 1);
     c.doc = unhex(get(kv, "doc", "-"));
+    c.src = get(kv, "src", ""); c.enc = get(kv, "enc", ""); c.pub = get(kv, "pub", ""); c.sys = get(kv, "sys", ""); c.tmp = get(kv, "tmp", "");
+    c.preload = geti(kv, "preload", 0);
+    {
+        std::string ee = get(kv, "extenc", "");
+        size_t pos = 0;
+        while (pos < ee.size()) {
+            size_t comma = ee.find(',', pos);
+            if (comma == std::string::npos) comma = ee.size();
+            std::string item = ee.substr(pos, comma - pos);
+            size_t col = item.find(':');
+            if (col != std::string::npos) c.extenc[item.substr(0, col)] = item.substr(col + 1);
+            pos = comma + 1;
+        }
+    }
     std::string ext = get(kv, "ext", "");
     size_t pos = 0;
     while (pos < ext.size()) {
@@ -553,6 +668,70 @@ static void doCase(const std::string& id, const KV& kv) {
     }
     outLine("end " + id + " cb=" + std::to_string(total) + " steps=" + std::to_string(steps));
     flushOut();
+}
+
+// "domhist": object-lifetime HISTORIES of the DOM parsers (api=dom: XercesDOMParser, api=ls: DOMLSParser), hist = letters
+//   P parse (complete)                 E parse ended by an exception from the first handler callback (if the run has one)
+//   F parseFirst + one parseNext, left there (api=dom only)       G parseReset (api=dom only)
+//   A adoptDocument()  (the harness takes ownership of a document it does not own yet)
+//   R release() the oldest document the application owns           X resetDocumentPool()           S reset() (api=dom)
+// end=0: destroy the parser, then release the application's documents;  end=1: the other way round.
+// One check point after both: everything the parser / documents took from manager 2 must have been returned exactly once.
+static void doDomHist(const std::string& id, const KV& kv) {
+    Cfg cfg = readCfg(kv);
+    if (cfg.api != "ls") cfg.api = "dom";
+    std::string hist = get(kv, "hist", "P");
+    int endOrder = geti(kv, "end", 0);
+    std::vector<int> ids; ids.push_back(2); if (cfg.pool) ids.push_back(3);
+    outLine("begin " + id);
+    XMLGrammarPool* gp = makePool(cfg);
+    AnyParser* p = new AnyParser(cfg, mgr(2), gp);
+    AbstractDOMParser* adp = p->dom ? (AbstractDOMParser*)p->dom : (AbstractDOMParser*)(DOMLSParserImpl*)p->ls;
+    std::vector<DOMDocument*> owned;
+    bool currentTaken = true;      // does the application already own (or has it released) the parser's current document?
+    std::string log;
+    for (size_t i = 0; i < hist.size(); i++) {
+        char c = hist[i];
+        try {
+            if (c == 'P' || c == 'E') {
+                p->arm(c == 'E' ? 1 : 0);
+                std::string r = p->parse(cfg.doc);
+                currentTaken = false;
+                log += r[0];
+            } else if (c == 'F') {
+                if (!p->dom) { log += '-'; continue; }
+                p->arm(0);
+                long st = 0;
+                std::string r = runProgressive(*p, cfg.doc, 1, 1, st);
+                currentTaken = false;
+                log += 'F';
+            } else if (c == 'G') {
+                if (!p->dom) { log += '-'; continue; }
+                p->reset(); log += 'G';
+            } else if (c == 'A') {
+                DOMDocument* d = adp->adoptDocument();
+                if (d && !currentTaken) { owned.push_back(d); log += 'A'; } else log += 'a';
+                currentTaken = true;
+            } else if (c == 'R') {
+                if (!owned.empty()) { owned.front()->release(); owned.erase(owned.begin()); log += 'R'; } else log += 'r';
+            } else if (c == 'X') {
+                if (p->dom) p->dom->resetDocumentPool(); else p->ls->resetDocumentPool();
+                currentTaken = true; log += 'X';
+            } else if (c == 'S') {
+                if (!p->dom) { log += '-'; continue; }
+                p->dom->reset(); currentTaken = true; log += 'S';
+            } else log += '?';
+        } catch (const XMLException&) { log += '!';
+        } catch (const DOMException&) { log += '!';
+        } catch (...) { log += '#'; }
+    }
+    if (endOrder == 0) { delete p; p = 0; }
+    for (size_t i = 0; i < owned.size(); i++) owned[i]->release();
+    delete p;
+    delete gp;
+    outLine("r " + id + " domhist " + hist + " " + log);
+    checkpoint(id + ".hist", ids);
+    outLine("end " + id);
 }
 
 // "domlife": object lifetimes of DOM documents: life = sequence of letters
@@ -1089,6 +1268,7 @@ int main() {
             else if (op == "ref") doRef(id, kv);
             else if (op == "progreuse") doProgReuse(id, kv);
             else if (op == "misc") doMisc(id, kv);
+            else if (op == "domhist") doDomHist(id, kv);
             else outLine("r " + id + " bad-request");
             flushOut();
         } catch (const XMLException& e) { outLine("r " + id + " harness-exc:XMLException:" + narrow(e.getMessage()));
